@@ -117,44 +117,80 @@ def random_graph(rng):
     return n, el
 
 
+# module names for the CLI projects: string prefixes of one another, interleaved in sorted order
+PREFIX_NAMES = ["app", "app_config", "appx", "b", "ba", "core", "core_ext", "corex", "hub", "hub2", "m1", "m10", "m11", "m2", "util", "utils", "utils2", "z"]
+
+
 def cli_level(res, rng, count):
-    """Real binary on generated flat projects: cycles in the report vs SCCs of the DependencyMatrix of the SAME report."""
+    """Real binary on generated flat projects: the cycles of the report vs (a) the SCCs of the IMPORTS WRITTEN INTO THE FILES (the project is flat, every import
+    is a plain `import <module>` at top level, so the import graph is known by construction) and (b) the SCCs of the DependencyMatrix of the same report."""
     done = 0
     tmp = tempfile.mkdtemp(prefix="pv_c11_")
     try:
-        for k in range(count):
-            n = rng.randrange(2, 9)
-            edges = set()
-            for _ in range(rng.randrange(1, 3 * n)):
-                u, v = rng.randrange(n), rng.randrange(n)
-                edges.add((u, v))
+        shapes = []
+        # directed shapes: a ring of 5..7 modules found first, further small cycles whose names interleave with the ring's, an entry point outside
+        for ring in (5, 6, 7, 9):
+            for extra in ([2], [3], [2, 2], [2, 3]):
+                n = ring + sum(extra) + 1
+                order = list(range(n))
+                rng.shuffle(order)
+                pos, edges = 0, set()
+                groups = []
+                for size in [ring] + extra:
+                    grp = order[pos:pos + size]
+                    pos += size
+                    groups.append(grp)
+                    for i in range(size):
+                        edges.add((grp[i], grp[(i + 1) % size]))
+                entry = order[pos]
+                edges.add((entry, groups[0][0]))
+                shapes.append((n, edges, "ring%d+%s" % (ring, extra)))
+        for k in range(count + len(shapes)):
+            if k < len(shapes):
+                n, edges, shape = shapes[k]
+            else:
+                n = rng.randrange(2, 9)
+                edges = set()
+                for _ in range(rng.randrange(1, 3 * n)):
+                    u, v = rng.randrange(n), rng.randrange(n)
+                    edges.add((u, v))
+                shape = "random"
+            names = ["mod%02d" % u for u in range(n)] if (k % 2 == 0 or n > len(PREFIX_NAMES)) else sorted(rng.sample(PREFIX_NAMES, n))
             proj = os.path.join(tmp, "p%d" % k, "proj")
             os.makedirs(proj)
+            open(os.path.join(proj, "requirements.txt"), "w").close()
             for u in range(n):
-                with open(os.path.join(proj, "mod%02d.py" % u), "w") as f:
+                with open(os.path.join(proj, names[u] + ".py"), "w") as f:
                     for (a, b) in sorted(edges):
                         if a == u:
-                            f.write("import mod%02d\n" % b)
+                            f.write("import %s\n" % names[b])
                     f.write("X%d = 1\n" % u)
             rc, data, err = C.pyscn_json(["proj"], os.path.join(tmp, "p%d" % k), extra=["--select", "deps"])
             if data is None or "system" not in data:
                 res.violation("no deps report for generated project: " + err[-300:], {"n": n, "edges": sorted(edges)})
                 continue
             da = data["system"]["DependencyAnalysis"]
-            names = sorted(da["DependencyMatrix"].keys())
-            idx = {m: i for i, m in enumerate(names)}
+            rnames = sorted(da["DependencyMatrix"].keys())
+            idx = {m: i for i, m in enumerate(rnames)}
             e2 = [(idx[a], idx[b]) for a, row in da["DependencyMatrix"].items() for b, on in row.items() if on and b in idx]
-            want = py_sccs(len(names), e2)
+            want_matrix = py_sccs(len(rnames), e2)
             cd = da.get("CircularDependencies") or {}
-            got = sorted(sorted(idx[m] for m in c["Modules"]) for c in (cd.get("CircularDependencies") or []))
+            got_names = sorted(sorted(c["Modules"]) for c in (cd.get("CircularDependencies") or []))
+            got = sorted(sorted(idx[m] for m in c["Modules"] if m in idx) for c in (cd.get("CircularDependencies") or []))
+            # (a) by construction
+            src = [(a, b) for (a, b) in edges if a != b]
+            want_src = sorted(sorted(names[v] for v in comp) for comp in py_sccs(n, src))
             done += 1
-            ok = got == want and cd.get("TotalCycles", 0) == len(want) and cd.get("TotalModulesInCycles", 0) == sum(map(len, want))
+            ok = got == want_matrix and cd.get("TotalCycles", 0) == len(want_matrix) and cd.get("TotalModulesInCycles", 0) == sum(map(len, want_matrix))
             for c in (cd.get("CircularDependencies") or []):
                 if c["Size"] != len(c["Modules"]):
                     ok = False
             if not ok:
-                res.violation("CLI: reported cycles %s differ from the SCCs %s of the reported dependency matrix" % (got, want),
-                              {"modules": names, "matrix_edges": e2, "reported": got, "expected": want, "source_edges": sorted(edges)})
+                res.violation("CLI: reported cycles %s differ from the SCCs %s of the reported dependency matrix" % (got, want_matrix),
+                              {"modules": rnames, "matrix_edges": e2, "reported": got, "expected": want_matrix, "source_edges": sorted(edges), "names": names, "shape": shape})
+            elif got_names != want_src:
+                res.violation("CLI (%s): reported cycles %s differ from the strongly connected components %s of the imports written into the files"
+                              % (shape, got_names, want_src), {"names": names, "source_edges": sorted(edges), "reported": got_names, "expected": want_src, "shape": shape})
     finally:
         shutil.rmtree(tmp, ignore_errors=True)
     return done
